@@ -222,6 +222,13 @@ def run_case(prop, case):
             counters["probe:twice_on_same_object"] += 1
         states.add(prng.H(_shape_key(c)))
         vals = [r.get(cid) for r in results]
+        if ref.get(cid, "").startswith("EXC did-not-return"):
+            counters["case_did_not_return:" + c["api"]] += 1
+            # wall-clock cut-offs are not comparable between environments: skip this case
+            continue
+        if any(str(r.get(cid, "")).startswith("EXC did-not-return") for r in results):
+            counters["case_did_not_return:" + c["api"]] += 1
+            continue
         if ref.get(cid, "").startswith("EXC "):
             counters["case_raised:" + c["api"]] += 1
         if (c.get("twice") or c["api"] in ("object_interleaved", "reusable_rgreedy_history", "seeded_optimizer_via_interface")) and not ref.get(cid, "").startswith("EXC "):
